@@ -22,7 +22,8 @@ import (
 )
 
 const c15Rule = "seq: history contains a clone taken while the original has undelivered events (model pending>0) and a read after it; " +
-	"conc: a clone is taken while the original has undelivered events (publishes completed since its subscription > events it has read) and at least one reader is delayed/stalled"
+	"conc: a clone is taken while the original has undelivered events (publishes completed since its subscription > events it has read) and at least one reader is delayed/stalled; " +
+	"close race: a subscriber with at least 200 clones is closed while events are published and the bus is closed during its tear-down"
 
 const c15Wait = 10 * time.Second
 
